@@ -138,6 +138,24 @@ func CompareEntry(r pdf.Getter, e *Entry, got pdf.Native) error {
 		return fmt.Errorf("stream %s (filters %v): decoded data differs: wrote %d bytes %q, read %d bytes %q",
 			e.Ref, e.Filters, len(e.Data), clip(e.Data), len(data), clip(data))
 	}
+	// the same data once more, in small pieces
+	k := vt.ChunkSizes[(int(e.Ref.Number())+len(e.Data))%len(vt.ChunkSizes)]
+	rd, err = pdf.DecodeStream(r, nil, stm)
+	if err != nil {
+		return fmt.Errorf("stream %s: second DecodeStream failed: %v", e.Ref, err)
+	}
+	data, err = vt.ReadInChunks(rd, k)
+	cerr = rd.Close()
+	if err != nil {
+		return fmt.Errorf("stream %s: reading decoded data %d bytes at a time failed after %d bytes: %v", e.Ref, k, len(data), err)
+	}
+	if cerr != nil {
+		return fmt.Errorf("stream %s: Close after reading %d bytes at a time failed: %v", e.Ref, k, cerr)
+	}
+	if !bytes.Equal(data, e.Data) {
+		return fmt.Errorf("stream %s (filters %v): read %d bytes at a time (until io.EOF) the decoded data differs: wrote %d bytes %q, read %d bytes %q",
+			e.Ref, e.Filters, k, len(e.Data), clip(e.Data), len(data), clip(data))
+	}
 	// Length() must agree with what NewReader yields
 	raw, err := io.ReadAll(stm.NewReader())
 	if err != nil {
